@@ -815,3 +815,205 @@ class SourceKeyFor(Kernel):
 
 
 KERNELS += [SourceKeyFor]
+
+
+# ------------------------------------------------------------------ make_key: every behaviour-relevant attribute of an input
+#
+# Two wirings of a value-producing node are one node exactly when their keys are equal, so the key must distinguish any
+# two wirings that would behave differently.  Per input that is: which source it reads (source_key_for), which input
+# position it feeds (target path, defaulting to the input's index), whether it constrains the rank, and whether the
+# consumer reads it passively (the passive(...) marker removes the slot from the node's active list: C03).
+
+
+class InKeyVec(Obj):
+    cls = "std::vector<InputKey>"
+
+    def __init__(self, ctx):
+        Obj.__init__(self, name="key_inputs")
+        ctx.store[(self.oid, "len")] = z3.IntVal(0)
+        for f in ("src", "path", "rank", "passive"):
+            ctx.store[(self.oid, f)] = z3.K(I_, z3.IntVal(-1))
+
+    def m_reserve(self, I, args, n):
+        return VOID
+
+    def m_push_back(self, I, args, n):
+        ctx = I.ctx
+        v = ctx.rv(args[0])
+        if not isinstance(v, InKey):
+            raise Gap("something that is not an InputKey was appended to the key")
+        L = ctx.store[(self.oid, "len")]
+        b2i = lambda b: z3.If(b, z3.IntVal(1), z3.IntVal(0)) if z3.is_bool(b) else b
+        for f, val in (("src", v.src), ("path", v.path), ("rank", b2i(v.rank)), ("passive", b2i(v.passive))):
+            ctx.write(Loc((self.oid, f)), z3.Store(ctx.store[(self.oid, f)], L, val))
+        ctx.write(Loc((self.oid, "len")), L + 1)
+        return VOID
+
+
+class InKey(Obj):
+    cls = "InputKey"
+
+    def __init__(self, src, path, rank, passive):
+        Obj.__init__(self, name="input_key")
+        self.src, self.path, self.rank, self.passive = src, path, rank, passive
+
+
+class InRef(Obj):
+    """WiringInputRef i: source port (identified by i), target_path, rank_dependency"""
+    cls = "WiringInputRef"
+
+    def __init__(self, k, i):
+        Obj.__init__(self, name="input")
+        self.k, self.i = k, i
+
+    def member(self, ctx, name, node):
+        k, i = self.k, self.i
+        if name == "source":
+            return InSource(k, i)
+        if name == "target_path":
+            return PathVal(k.path_id[i], k.path_empty[i])
+        if name == "rank_dependency":
+            return k.rank_dep[i]
+        raise Gap("input member %s" % name)
+
+
+class InSource(Obj):
+    cls = "WiringPortRef"
+
+    def __init__(self, k, i):
+        Obj.__init__(self, name="source")
+        self.k, self.i = k, i
+
+    def member(self, ctx, name, node):
+        if name == "arg_tag":
+            return self.k.arg_tag[self.i]
+        raise Gap("source member %s" % name)
+
+
+class PathVal(Obj):
+    cls = "std::vector<size_t>(path)"
+
+    def __init__(self, pid, empty):
+        Obj.__init__(self, name="path")
+        self.pid, self.empty = pid, empty
+
+    def m_empty(self, I, args, n):
+        return self.empty
+
+
+class MakeKey(Kernel):
+    tu = TU
+    name = "graph_wiring.cpp:make_key"
+    fn_name = "make_key"
+    filter = "make_key"
+    property_ids = ("C06",)
+    scope = {"lo": 0, "hi": 3}
+    title = "make_key: the interning key carries, per input, its source, target position, rank flag and passive marker"
+
+    def setup(self, I):
+        ctx = I.ctx
+        self.n = z3.Int("n_inputs")
+        ctx.assume(self.n >= 0)
+        A = lambda nm, s=I_: z3.Array(nm, I_, s)
+        self.path_id, self.path_empty, self.rank_dep, self.arg_tag = A("target_path_id"), A("target_path_empty", B_), \
+            A("rank_dependency", B_), A("arg_tag")
+        ctx.assume(z3.ForAll([qk], z3.And(self.arg_tag[qk] >= 0, self.arg_tag[qk] <= 3)))
+        self.inputs = Vec(ctx, "inputs", length=self.n, elem=lambda i: InRef(self, i))
+        self.keyvec = None
+        return None, {"def": Obj("type_index", "def"), "schema": Obj("WiringNodeSchema", "schema"), "inputs": self.inputs,
+                      "scalars": Obj("Value", "scalars")}
+
+    def enum_const(self, I, ref):
+        tbl = {"None": 0, "PassThrough": 1, "NoKey": 2, "Passive": 3}
+        if ref.get("name") in tbl:
+            return z3.IntVal(tbl[ref["name"]])
+        raise Gap("enum constant %s" % ref.get("name"))
+
+    def function_handler(self, name, node, callee_node):
+        if name == "source_key_for":
+            def skf(I, args, n):
+                s = I.ctx.rv(args[0])
+                if not isinstance(s, InSource):
+                    raise Gap("source_key_for of something that is not an input's source")
+                o = Obj("SourceKey", "source_key")
+                o.of_input = s.i
+                return o
+            return skf
+        return Kernel.function_handler(self, name, node, callee_node)
+
+    def ctor_handler(self, qt, node):
+        if qt.endswith("InstanceKey"):
+            def mk(I, args, n):
+                a = [I.ctx.rv(x) for x in args]
+                if len(a) == 1 and isinstance(a[0], Obj) and a[0].cls == "InstanceKey":
+                    return a[0]
+                o = Obj("InstanceKey", "key")
+                self.keyvec = InKeyVec(I.ctx)
+                I.ctx.store[(o.oid, "inputs")] = self.keyvec
+                return o
+            return mk
+        if qt.endswith("InputKey"):
+            def mki(I, args, n):
+                from cxxvc.interp import DEFAULT_ARG
+                a = [I.ctx.rv(x) for x in args]
+                if len(a) == 1 and isinstance(a[0], InKey):
+                    return a[0]
+                src = a[0].of_input if len(a) > 0 and hasattr(a[0], "of_input") else z3.IntVal(-7)
+                path = a[1] if len(a) > 1 and isinstance(a[1], z3.ExprRef) else z3.IntVal(-7)
+                rank = a[2] if len(a) > 2 and isinstance(a[2], z3.ExprRef) else z3.BoolVal(True)
+                passive = a[3] if len(a) > 3 and isinstance(a[3], z3.ExprRef) else z3.BoolVal(False)
+                return InKey(src, path, rank, passive)
+            return mki
+        if "vector<" in qt and ("size_t" in qt or "unsigned long" in qt):
+            def mkv(I, args, n):
+                from cxxvc.interp import DEFAULT_ARG, InitList
+                a = [I.ctx.rv(x) for x in args if x is not DEFAULT_ARG]
+                a = [x for x in a if x is not DEFAULT_ARG]
+                if len(a) == 1 and isinstance(a[0], PathVal):
+                    return a[0].pid
+                if len(a) == 1 and isinstance(a[0], InitList) and len(a[0]) == 1:
+                    a = [I.ctx.rv(a[0][0])]
+                if len(a) == 1 and isinstance(a[0], z3.ExprRef):
+                    return -100 - a[0]          # the one-element path {index}: encoded as -100 - index
+                raise Gap("target path constructed from %r" % (a,))
+            return mkv
+        if qt.endswith("Value") or qt.endswith("WiringNodeSchema") or qt.endswith("type_index"):
+            return lambda I, args, n: I.ctx.rv(args[0]) if args else Obj("value", "value")
+        return Kernel.ctor_handler(self, qt, node)
+
+    def inv(self, I, ctx):
+        i = self.local(I, "index")
+        kv = self.keyvec
+        yield "index-range", z3.And(i >= 0, i <= self.n)
+        if kv is None:
+            raise Gap("make_key: no key under construction at the loop")
+        yield "inputs-keyed-so-far[C06]", z3.And(ctx.store[(kv.oid, "len")] == i, self.keyed(ctx, i))
+
+    def keyed(self, ctx, upto):
+        kv = self.keyvec
+        g = lambda f: ctx.store[(kv.oid, f)]
+        want_path = z3.If(self.path_empty[qk], -100 - qk, self.path_id[qk])
+        b2i = lambda b: z3.If(b, z3.IntVal(1), z3.IntVal(0))
+        return z3.ForAll([qk], z3.Implies(z3.And(qk >= 0, qk < upto), z3.And(
+            g("src")[qk] == qk, g("path")[qk] == want_path, g("rank")[qk] == b2i(self.rank_dep[qk]),
+            g("passive")[qk] == b2i(self.arg_tag[qk] == 3))))
+
+    def frame(self, I, ctx):
+        kv = self.keyvec
+        return [Loc((kv.oid, f)) for f in ("len", "src", "path", "rank", "passive")]
+
+    @property
+    def loops(self):
+        return {0: LoopSpec(self.inv, self.frame)}
+
+    def post(self, I, ret):
+        ctx = I.ctx
+        kv = self.keyvec
+        if kv is None:
+            raise Gap("make_key returned without building a key")
+        ctx.oblige("ensures.every-input-keyed-by-source,target-position,rank-flag-and-passive-marker[C06 nodes are shared only when "
+                   "their inputs are identical; C03 a passive input does not trigger evaluation]",
+                   z3.And(ctx.store[(kv.oid, "len")] == self.n, self.keyed(ctx, self.n)), kind="post-normal")
+
+
+KERNELS += [MakeKey]
